@@ -92,6 +92,27 @@ func st(full bool, hosts map[string]H, backs map[string]B, def string, dirty ...
 	return cfgsm.Step{Full: full, State: s, Dirty: dirty}
 }
 
+// aclPaths: two paths with distinct per path configuration, so the backend needs idpath maps
+func aclPaths(b string) []P {
+	return []P{{Path: "/", Backend: b}, {Path: "/a", Backend: b, SSLRedirect: true}}
+}
+
+var twoB = map[string]B{"b0": {Eps: []int{1}}, "b1": {Eps: []int{2}}}
+
+func aliasSteps(re bool) []cfgsm.Step {
+	hs := func(alias, re string) map[string]H {
+		return map[string]H{
+			"h0": {Paths: []P{{Path: "/", Backend: "b0"}, {Path: "/a", Backend: "b0", SSLRedirect: true}}, Alias: alias, AliasRe: re},
+			"h1": {Paths: []P{{Path: "/", Backend: "b1"}}}}
+	}
+	bs := map[string]B{"b0": {Eps: []int{1}}, "b1": {Eps: []int{2}}}
+	if re {
+		return []cfgsm.Step{st(true, hs("a0", "^r0$"), bs, ""), st(false, hs("a0", "^r1$"), bs, ""), st(false, hs("a1", ""), bs, ""),
+			st(false, hs("", "^r0$"), bs, "")}
+	}
+	return []cfgsm.Step{st(true, hs("a0", ""), bs, ""), st(false, hs("a1", ""), bs, ""), st(false, hs("", ""), bs, ""), st(false, hs("a0", ""), bs, "")}
+}
+
 // corpus: minimised past failures, run first forever.
 func corpus() []History {
 	one := map[string]H{"h0": {Paths: []P{{Path: "/", Backend: "b0"}}}}
@@ -145,6 +166,24 @@ func corpus() []History {
 			st(true, map[string]H{"h0": {Paths: []P{{Path: "/", Backend: "b0"}, {Path: "/a", Backend: "b1"}}}}, map[string]B{"b0": {Eps: []int{1}}, "b1": {Eps: []int{2}}}, ""),
 			st(false, one, oneB, ""), st(false, one, oneB, "")},
 			Faults: [][]string{nil, {"front:host"}, nil}},
+		// only the host side of the idpath maps of a backend changes (server alias / alias regex renamed,
+		// removed, added) while the backend - which needs per path acls - is
+		// parsed again with the very same content: its maps must follow the host
+		{Shards: 0, Steps: aliasSteps(false)},
+		{Shards: 3, Steps: aliasSteps(false)},
+		{Shards: 3, Steps: aliasSteps(true)},
+		// a contended server alias moves to the host that stays when the one that had it goes away
+		// (h0 and h1 both ask for a0, h0 has it; h0 is removed): the frontend maps route a0 to the
+		// backend of h1, whose idpath maps - not built again - did not know a0
+		{Shards: 0, Steps: []cfgsm.Step{
+			st(true, map[string]H{"h0": {Paths: aclPaths("b0"), Alias: "a0"}, "h1": {Paths: aclPaths("b1"), Alias: "a0"}}, twoB, ""),
+			st(false, map[string]H{"h1": {Paths: aclPaths("b1"), Alias: "a0"}}, twoB, "")}},
+		// ... and an alias that is a declared hostname is not answered by its host while that
+		// hostname exists: h1 asks for h0; h0 is created, then removed
+		{Shards: 3, Steps: []cfgsm.Step{
+			st(true, map[string]H{"h1": {Paths: aclPaths("b1"), Alias: "h0"}}, twoB, ""),
+			st(false, map[string]H{"h0": {Paths: []P{{Path: "/", Backend: "b0"}}}, "h1": {Paths: aclPaths("b1"), Alias: "h0"}}, twoB, ""),
+			st(false, map[string]H{"h1": {Paths: aclPaths("b1"), Alias: "h0"}}, twoB, "")}},
 		// identical re-creation of an acl backend; revert within one batch
 		{Shards: 3, Steps: []cfgsm.Step{
 			st(true, map[string]H{"h0": {Paths: []P{{Path: "/", Backend: "b0"}, {Path: "/a", Backend: "b0", SSLRedirect: true}}}}, oneB, ""),
@@ -243,6 +282,11 @@ func oracle(step cfgsm.Step, o stepObs, fresh cfgsm.Disk) (string, string) {
 	}
 	if o.Disk.MainRest != fresh.MainRest {
 		return "main-stale", "main file differs from a fresh rendering: " + firstDiff(o.Disk.MainRest, fresh.MainRest)
+	}
+	for _, k := range cfgsm.SortedKeys(fresh.MapFiles) {
+		if fmt.Sprint(o.Disk.MapFiles[k]) != fmt.Sprint(fresh.MapFiles[k]) {
+			return "map-file-stale", fmt.Sprintf("%s holds %v, a fresh instance writes %v", k, o.Disk.MapFiles[k], fresh.MapFiles[k])
+		}
 	}
 	return "differs-from-fresh", firstDiff(o.Disk.Canon(), fresh.Canon())
 }
@@ -431,7 +475,9 @@ func main() {
 			res.Count("oracle_fail_" + r.Key)
 			res.Fail(hx.Failure{Key: "C05/" + r.Key, What: r.What, Input: h, Observed: files})
 		}
-		if !o.Search {
+		if cfgsm.UsesAliasRe(h.Steps) {
+			res.Count("oracle_only_alias_regex_or_contended")
+		} else if !o.Search {
 			cw.add(h, r)
 		}
 	}
